@@ -255,6 +255,15 @@ def isLwrite : RtPc → Bool
   | .lwrite _ => true
   | _ => false
 
+/-- program points of the external loop (compio-compat `drive`) -/
+def extPc : RtPc → Bool
+  | .xarm | .xsubmit | .xreset | .xwait | .xclear => true
+  | _ => false
+
+def isLcas : RtPc → Bool
+  | .lcas _ => true
+  | _ => false
+
 def waitPcs : RtPc → Bool
   | .reset | .arm | .submit | .wait | .xarm | .xsubmit | .xreset | .xwait | .xclear => true
   | _ => false
@@ -266,6 +275,7 @@ structure Inv (s : State) : Prop where
   hotLive : ∀ t, t ∈ s.hot → s.dropped t = false
   hotNodup : s.hot.Nodup
   notPushed : ∀ w, prePush (s.wk w).pc = true → (s.wk w).pushed = false
+  extOnly : extPc s.rt = true → s.cfg.loop = .ext
   compl : ∀ t, TaskState.isCompleted (s.word t) = true → s.dropped t = true
   sched : ∀ t, TaskState.isScheduled (s.word t) = true → s.dropped t = false →
     TaskState.isCancelled (s.word t) = false → t ∈ s.sync ∨ t ∈ s.hot ∨ 0 < cnt s (holdsP t)
@@ -287,5 +297,9 @@ structure Inv (s : State) : Prop where
   xsig : phase s.cfg.loop s.rt = .xsleep → nbit s.flag = true → 0 < cnt s inflightP ∨ fdReadable s = true
   pn : s.pnot = true → 0 < s.efd ∨ 0 < cnt s writeP ∨ s.rt = .pswap ∨ isLwrite s.rt = true
   zeroHot : waitPcs s.rt = true → s.hot ≠ [] → s.zero = true
+  iourPc : (s.rt = .consume ∨ s.rt = .clear) → s.cfg.drv = .iour
+  pnotPoll : s.pnot = true → s.cfg.drv = .poll
+  casPoll : ∀ w, (s.wk w).pc = .cas → s.cfg.drv = .poll
+  lcasPoll : isLcas s.rt = true → s.cfg.drv = .poll
 
 end Compio.Wake
